@@ -49,6 +49,8 @@ class _Run:
         self.res.violate(P, clause, f"{sig} kind={self.kind}", msg)
         self.log.add("violation", f"{clause} {sig}")
 
+    cur_caption = None  # the caption after the application's last set_caption() (None: the configured one)
+
     # ------------------------------------------------------------------------------------
     def make(self, text=None, pos=None):
         import urwid  # noqa: PLC0415
@@ -56,7 +58,7 @@ class _Run:
 
         cfg = self.scen["config"]
         k = cfg["kind"]
-        cap = cfg.get("caption", "")
+        cap = cfg.get("caption", "") if self.cur_caption is None else self.cur_caption
         txt = cfg.get("text", "") if text is None else text
         if k == "edit":
             if cfg.get("bytes"):
@@ -82,7 +84,7 @@ class _Run:
             return self.make(text=text, pos=pos)
         import urwid  # noqa: PLC0415
 
-        tw = urwid.Edit(self.scen["config"].get("caption", ""), text)
+        tw = urwid.Edit(self.scen["config"].get("caption", "") if self.cur_caption is None else self.cur_caption, text)
         tw.set_edit_pos(pos)
         return tw
 
@@ -294,6 +296,19 @@ class _Run:
                 self.m_pos = e.edit_pos
                 self.m_pref = None
                 self.last_render = None
+            elif k == "set_caption":
+                # the application changes the caption: text and offset stay, the geometry moves
+                cap = op["caption"]
+                self.cur_caption = cap
+                e.set_caption(cap.encode("utf-8") if cfg.get("bytes") else cap)
+                self.caplen = len(e.caption)
+                self.log.add("set_caption", cap)
+                res.probe("caption_changed")
+                if (e.edit_text, e.edit_pos) != (before_text, before_pos):
+                    self.violate("C10.2", "set_caption-changed-text-or-offset", f"step {i}: {(before_text, before_pos)!r} -> {(e.edit_text, e.edit_pos)!r}")
+                    return False
+                self.m_pref = None if self.m_pref is None else self.m_pref
+                self.last_render = None
             elif k == "set_pos":
                 want_pos = op["pos"]
                 if isinstance(before_text, bytes):
@@ -361,7 +376,7 @@ class _Run:
             elif k == "width":
                 width = op["w"]
                 events.append({"ev": "resize", "t": t, "cols": width, "rows": rows})
-            elif k in ("set_text", "set_pos"):
+            elif k in ("set_text", "set_pos", "set_caption"):
                 events.append({"ev": "app", "t": t, "op": op})
         self.active = True
         self.n_steps = 0
@@ -553,7 +568,7 @@ class _Run:
         return (
             cfg["kind"] == "edit"
             and isinstance(text, str)
-            and not cfg.get("caption")
+            and not (cfg.get("caption") if self.cur_caption is None else self.cur_caption)
             and cfg.get("mask") is None
             and cfg.get("wrap") == "any"
             and cfg.get("align", "left") == "left"
@@ -736,8 +751,10 @@ class EditEngine(Engine):
                 ops.append({"op": "render", "focus": rng.random() < 0.75})
             elif q < 0.92:
                 ops.append({"op": "width", "w": rng.choice([2, 3, 5, 8, 12, 20] if self._wide else [1, 2, 3, 5, 8, 12, 20])})
-            elif q < 0.96 and cfg["kind"] == "edit":
+            elif q < 0.955 and cfg["kind"] == "edit":
                 ops.append({"op": "set_text", "text": self.gen_text(rng, rng.choice([0, 2, 10]), True)})
+            elif q < 0.97 and cfg["kind"] == "edit":
+                ops.append({"op": "set_caption", "caption": rng.choice(["", "c:", "cap \n", "longer caption ", "日:" if self._wide else "d:"])})
             else:
                 ops.append({"op": "set_pos", "pos": rng.choice([0, 1, 3, 7, 100])})
         ops.append({"op": "render", "focus": True})
